@@ -134,8 +134,9 @@ pub fn effective_body(case: &Case) -> Vec<u8> {
 pub fn check(case: &Case) -> Outcome {
     let mut out = Outcome::new();
     let body = effective_body(case);
-    // sentinels must not occur in the body (they cannot by construction: bodies never contain "~~S")
-    if body.windows(3).any(|w| w == b"~~S") {
+    // sentinels must not occur in the body, and no sentinel may be completed by body bytes next to an inserted value
+    // ("~~S2~~" + "S1~~>" contains "~~S1~~" - found by the libFuzzer campaign): bodies with a tilde are outside the domain
+    if body.contains(&b'~') {
         out.class("skipped:sentinel-in-body");
         return out;
     }
